@@ -274,6 +274,28 @@ class Check(PropertyCheck):
                     res.append(("roundtrip:taillard", f"from_taillard_file(path, name={given!r}, **{meta!r}) gave name {got!r}, metadata "
                                 f"{got_meta!r}, same operations: {same_ops}"))
         elif line == "rebuild":
+            # rebuilt schedules the caller still holds stay what they were when later ones are rebuilt (from the same instance)
+            kept = ctx.setdefault("kept_rebuilt", [])
+            for sch0, dump0 in kept:
+                if oracles.dump_schedule(sch0.schedule) != dump0:
+                    res.append(("rebuild-kept", "a schedule rebuilt earlier (and still held by the caller) changed when another one was rebuilt"))
+                    break
+            if getattr(impl, "last_rebuilt", None) is not None:
+                import jsl as _jsl
+                kept.append((impl.last_rebuilt, oracles.dump_schedule(impl.last_rebuilt.schedule)))
+                # ... and two more rebuilds of OTHER schedules of the same instance object, results dropped
+                for rule in ("shortest_processing_time", "most_work_remaining"):
+                    try:
+                        from job_shop_lib.dispatching.rules import DispatchingRuleSolver
+                        other = DispatchingRuleSolver(rule).solve(impl.instance)
+                        _jsl.Schedule.from_job_sequences(impl.instance, other.to_dict()["job_sequences"])
+                    except Exception:  # pylint: disable=broad-except
+                        pass
+                for sch0, dump0 in kept:
+                    if oracles.dump_schedule(sch0.schedule) != dump0:
+                        res.append(("rebuild-kept", "a schedule rebuilt earlier (and still held by the caller) changed when another schedule of "
+                                    "the same instance was rebuilt"))
+                        break
             d = impl.dispatcher
             if d.schedule.is_complete():
                 if not out.startswith("ok"):
